@@ -211,3 +211,106 @@ def _binary_write(ex, args, ins, where):
         raise Unsupported('binary.Write of ' + T.tab[t]['str'])
     r = ex.invoke(w, 'Write', [ex.mkslice(bs)], ins, where, 10)
     return r[1]
+
+
+# ------------------------------------------------------------------ randomness: arbitrary values of the documented range
+@intrinsic('math/rand.Int', 'math/rand.Int63')
+def _rand_int(ex, args, ins, where):
+    v = ex.fresh('rand.Int', 64)
+    if is_sym(v):
+        ex.add(v >= 0)
+        return v
+    return v & ((1 << 63) - 1)
+
+
+@intrinsic('math/rand.Seed')
+def _rand_seed(ex, args, ins, where):
+    return None
+
+
+@intrinsic('math/rand.Intn')
+def _rand_intn(ex, args, ins, where):
+    n = args[0]
+    v = ex.fresh('rand.Intn', 64)
+    if is_sym(v):
+        ex.add(z3.And(v >= 0, v < to_bv(n, 64)))
+        return v
+    return v % n if n else 0
+
+
+@intrinsic('math/rand.Uint32')
+def _rand_u32(ex, args, ins, where):
+    return ex.fresh('rand.Uint32', 32)
+
+
+@intrinsic('math/rand.Uint64')
+def _rand_u64(ex, args, ins, where):
+    return ex.fresh('rand.Uint64', 64)
+
+
+# ------------------------------------------------------------------ secp256k1 scalars / field values: modelled by contract
+SECP_N = 0xFFFFFFFFFFFFFFFFFFFFFFFFFFFFFFFEBAAEDCE6AF48A03BBFD25E8CD0364141
+SECP_P = 0xFFFFFFFFFFFFFFFFFFFFFFFFFFFFFFFFFFFFFFFFFFFFFFFFFFFFFFFEFFFFFC2F
+
+
+def _set_byte_slice(ex, p, b, modulus, where):
+    """SetByteSlice contract: interpret up to 32 bytes big endian (longer input is truncated to the first 32),
+    reduce modulo the modulus, report overflow iff value >= modulus.  The reduced 256-bit value is stored."""
+    els = ex.slice_elems(b)[:32]
+    if not els:
+        val = 0
+    elif all(not is_sym(x) for x in els):
+        val = int.from_bytes(bytes(els), 'big')
+    else:
+        val = bytes_to_bv(els)
+        if val.size() < 256:
+            val = z3.ZeroExt(256 - val.size(), val)
+    if is_sym(val):
+        ov = z3.UGE(val, z3.BitVecVal(modulus, 256))
+        red = z3.If(ov, val - z3.BitVecVal(modulus, 256), val)
+        ov, red = simp(ov), simp(red)
+    else:
+        ov = val >= modulus
+        red = val - modulus if ov else val
+    ex.store(p, ('u256', red), where, None)
+    ex.cut_notes.add('stub: secp256k1 ModNScalar/FieldVal.SetByteSlice modelled by contract (256-bit value, overflow iff >= modulus)')
+    return ov
+
+
+def _u256_get(ex, p, where):
+    v = ex.load(p, where, None)
+    if isinstance(v, tuple) and v and v[0] == 'u256':
+        return v[1]
+    return 0   # zero value of the struct
+
+
+@intrinsic('(*github.com/decred/dcrd/dcrec/secp256k1/v4.ModNScalar).SetByteSlice')
+def _modn_set(ex, args, ins, where):
+    return _set_byte_slice(ex, args[0], args[1], SECP_N, where)
+
+
+@intrinsic('(*github.com/decred/dcrd/dcrec/secp256k1/v4.FieldVal).SetByteSlice')
+def _fv_set(ex, args, ins, where):
+    return _set_byte_slice(ex, args[0], args[1], SECP_P, where)
+
+
+@intrinsic('(*github.com/decred/dcrd/dcrec/secp256k1/v4.ModNScalar).IsZero',
+           '(*github.com/decred/dcrd/dcrec/secp256k1/v4.FieldVal).IsZero')
+def _u256_iszero(ex, args, ins, where):
+    v = _u256_get(ex, args[0], where)
+    return simp(v == 0) if is_sym(v) else v == 0
+
+
+@intrinsic('(*github.com/decred/dcrd/dcrec/secp256k1/v4.ModNScalar).IsOverHalfOrder')
+def _modn_overhalf(ex, args, ins, where):
+    v = _u256_get(ex, args[0], where)
+    half = SECP_N >> 1
+    return simp(z3.UGT(v, z3.BitVecVal(half, 256))) if is_sym(v) else v > half
+
+
+@intrinsic('github.com/decred/dcrd/dcrec/secp256k1/v4/ecdsa.NewSignature',
+           'github.com/decred/dcrd/dcrec/secp256k1/v4/schnorr.NewSignature')
+def _new_sig(ex, args, ins, where):
+    r = _u256_get(ex, args[0], where)
+    s = _u256_get(ex, args[1], where)
+    return Ptr(ex.new_obj(('sig', r, s)), ())
